@@ -3,7 +3,7 @@ from __future__ import annotations
 
 import z3
 
-from checks.ekf_common import COMMON_ASSUMPTIONS, TRUSTED, nice_sizes, noise_contracts, triage_generic
+from checks.ekf_common import COMMON_ASSUMPTIONS, TRUSTED, magnitude_native, nice_sizes, noise_contracts, triage_generic
 from contracts import pyekf
 from pvc import driver
 from pvc.driver import Finding
@@ -41,7 +41,7 @@ def check(run):
         triage_generic(run, rep, lambda shape, seed, container="set": native((shape[0], shape[1], shape[2]), seed, container=container), "Model.model")
     for c in noise_contracts("C04"):
         rep = run.verify(c, pyekf.construct_callees())
-        triage_generic(run, rep, lambda shape, seed, container="set": native((shape[0], shape[1], max(shape[2], 2)), seed, container=container), "_construct_process")
+        triage_generic(run, rep, lambda shape, seed, container="set": native((shape[0], shape[1], max(shape[2], 2)), seed, container=container), "_construct_process", extra_native=[magnitude_native(run.seed)])
     if run.tier == "thorough" or any(r.status != "ok" for r in run.reports) or run.undecided:
         shapes = [(2, 0, 1), (3, 1, 2), (1, 0, 0), (3, 2, 3), (4, 0, 2)] if run.tier == "thorough" else [(3, 1, 2), (2, 0, 1)]
         fails = 0
@@ -61,6 +61,10 @@ def check(run):
 
 def replay_file(payload):
     inp = payload["inputs"]
+    if inp.get("magnitude_jacobians"):
+        from checks.ekf_common import replay_magnitude
+
+        return replay_magnitude(inp)
     if inp.get("sequence"):
         from checks.ekf_common import replay_sequence
 
